@@ -460,6 +460,20 @@ func (s *genState) expr(c ctx) ast.Expression {
 				head = false
 			}
 		}
+		if len(s.flabel) > 0 && !s.cfg.NoThrow && n >= 2 && s.r.Intn(4) == 0 {
+			// a throw in a NON-final position of a sequence: when it is recovered the parse goes on behind it - the items there,
+			// their code blocks and their labels are as live as any (round 23: no methods emitted for what follows a throw)
+			t := ast.NewThrowExpr(ast.Pos{})
+			t.Label = s.flabel[s.r.Intn(len(s.flabel))]
+			at := 1 + s.r.Intn(n-1)
+			e.Exprs = append(e.Exprs[:at:at], append([]ast.Expression{t}, e.Exprs[at:]...)...)
+			if w[kAndCode] > 0 && s.r.Intn(2) == 0 {
+				// ... and a code block of the sequence itself behind it
+				cp := ast.NewAndCodeExpr(ast.Pos{})
+				cp.Code = ast.NewCodeBlock(ast.Pos{}, "{}")
+				e.Exprs = append(e.Exprs, cp)
+			}
+		}
 		return e
 	case kRecovery:
 		e := ast.NewRecoveryExpr(ast.Pos{})
